@@ -11,17 +11,25 @@ evars == <<vars, hist, p0, cap0>>
 EInit ==
   /\ ext \in BOOLEAN /\ mode \in {"A", "F", "C"} /\ c \in 2..6
   /\ cap \in (IF ext THEN 0..14 ELSE {T + Q})
-  /\ pos \in 0..cap
+  /\ pos \in (IF ext THEN 0..cap ELSE 0..(cap + 3 * Q))       \* (a library-managed buffer: offsets up to three quanta beyond the capacity)
   /\ phase = "idle" /\ len = 1 /\ n = 0 /\ wlo = -1 /\ whi = -1
   /\ hist = <<>> /\ p0 = pos /\ cap0 = cap
 
+SetOffsetSmall ==
+  /\ phase = "idle"
+  /\ pos' \in (IF ext THEN 0..cap ELSE 0..(cap + 3 * Q))
+  /\ UNCHANGED <<cap, ext, mode, c, phase, len, n, wlo, whi>>
 EBegin == Begin /\ hist' = <<>> /\ p0' = pos /\ cap0' = cap
-ERoom  == Room /\ hist' = (IF pos + T > cap /\ ~ext THEN Append(hist, M!Step("grow", cap, cap + Q, cap + Q)) ELSE hist) /\ UNCHANGED <<p0, cap0>>
+\* the growth is a whole number of quanta (the part of GrowCap the unbounded step relation leaves out)
+SmallRange == 0..80
+ERoom  == Room /\ (cap' - cap) % Q = 0
+               /\ hist' = (IF pos + T > cap /\ ~ext THEN Append(hist, M!Step("grow", cap, cap', cap')) ELSE hist) /\ UNCHANGED <<p0, cap0>>
+ESetOffset == SetOffsetSmall /\ hist' = <<>> /\ p0' = pos' /\ cap0' = cap
 EPad   == Pad /\ hist' = hist \o <<M!Step("trial", pos, len, cap), M!Step("pad", pos, Free, cap)>> /\ UNCHANGED <<p0, cap0>>
 EEmit  == Emit /\ hist' = hist \o (IF mode = "F" THEN <<M!Step("trial", pos, len, cap)>> ELSE <<>>) \o <<M!Step("ins", pos, len, cap)>> /\ UNCHANGED <<p0, cap0>>
-ENext  == EBegin \/ ERoom \/ EPad \/ EEmit
+ENext  == EBegin \/ ERoom \/ EPad \/ EEmit \/ ESetOffset
 ESpec  == EInit /\ [][ENext]_evars
-Bound  == pos <= 40
+Bound  == pos <= 40 /\ cap <= 60
 
 SameAsOne ==
   LET r == M!One(p0, cap0, len, mode, c, ext, 0) IN
